@@ -129,8 +129,10 @@ class State:
     # -- canonical text ------------------------------------------------------------------------
     def show_wrapper(self, i, w):
         try:
-            return (f"W{i}={self.fnid(w.fun)}:{'c' if callable(w.fun) else 'k'}:[{','.join(list(w.args))}]:"
-                    f"{showdict(w.defaults)}:[{','.join(w.necessary_args)}]:[{','.join(w.optional_args)}]")
+            params = list(w.args)
+            own = {k: v for k, v in w.defaults.items() if k in params}    # defaults of declared names (others are never used)
+            return (f"W{i}={self.fnid(w.fun)}:{'c' if callable(w.fun) else 'k'}:[{','.join(params)}]:"
+                    f"{showdict(own)}:[{','.join(w.necessary_args)}]:[{','.join(w.optional_args)}]")
         except Exception as e:
             return f"W{i}=broken<{type(e).__name__}>"
 
